@@ -1,0 +1,56 @@
+//go:build verif
+
+package cache
+
+import "github.com/golang/groupcache/lru"
+
+// VerifShard, when set, decides the shard of a key instead of the per-process
+// seeded runtime hash (verification builds only).
+var VerifShard func(key []byte, zones uint64) (uint64, bool)
+
+func verifShard(key []byte, index, zones uint64) uint64 {
+	if VerifShard == nil {
+		return index
+	}
+	if v, ok := VerifShard(key, zones); ok {
+		return v % zones
+	}
+	return index
+}
+
+// VerifShardLens returns the number of resident entries of every shard. It takes
+// no lock: callers use it only while every other goroutine is quiescent.
+func (d *dispatcher) VerifShardLens() []int {
+	lens := make([]int, len(d.list))
+	for i, l := range d.list {
+		lens[i] = l.cache.Len()
+	}
+	return lens
+}
+
+// VerifLen returns the number of resident entries (see VerifShardLens).
+func (d *dispatcher) VerifLen() int {
+	n := 0
+	for _, l := range d.list {
+		n += l.cache.Len()
+	}
+	return n
+}
+
+// VerifWatchEvictions reports every entry leaving residency (LRU eviction or
+// purge) to fn. Pike itself never sets the lru callback.
+func (d *dispatcher) VerifWatchEvictions(fn func(shard int, key string)) {
+	for i, l := range d.list {
+		shard := i
+		l.cache.OnEvicted = func(key lru.Key, _ interface{}) {
+			k, _ := key.(string)
+			// the key string aliases the request's key buffer: copy it
+			fn(shard, string(append([]byte(nil), k...)))
+		}
+	}
+}
+
+// VerifShardOf returns the shard index of key.
+func (d *dispatcher) VerifShardOf(key []byte) int {
+	return int(verifShard(key, MemHash(key)%d.zoneSize, d.zoneSize))
+}
